@@ -61,6 +61,13 @@ def prepare (F : List Param) (P W : List Nat) : Except Err (List Param × List (
   validate params             -- `sig.replace(parameters=params)`
   pure (params, st.kwopos)
 
+/-- what `_prepare` stores as the wrapper object's `__signature__`: the advertised parameters with the
+    function's provenance, in which the wrapper object (`self`) replaces the function (`f`) in both maps:
+    `sig.replace(parameters=params, sources=copy_sources(sig.sources, {self.func: self}))` -/
+def prepareSig (sig : USig) (f self : Nat) (P W : List Nat) : Except Err USig := do
+  let r ← prepare sig.params P W
+  pure { sig with params := r.1, src := swapSrcs f self sig.src, depths := swapDepths f self sig.depths }
+
 /-- `list.insert(pos, x)` (only ever called with pos < len) -/
 def listInsert (l : List Nat) (pos : Nat) (x : Nat) : List Nat := l.take pos ++ [x] ++ l.drop pos
 
